@@ -1594,5 +1594,302 @@ theorem acyclic_of_forall [Add R] [Mul R] [OfNat R 0] [OfNat R 1] (l : Layer R) 
   intro n g hg k hk
   exact h (n, g) (AL.mem_of_get? hg) k hk
 
+/-! ### the driver's `…Keep` functions agree with `run` / `build` on accepted streams -/
+
+theorem runCoreKeep_spec (skip : Bool) (evs : List (Ev R)) (s : PenSt R) :
+    runCore skip evs s =
+      match runCoreKeep skip evs s with
+      | (s', none) => .ok s'
+      | (_, some e) => .error e := by
+  induction evs generalizing s with
+  | nil => rfl
+  | cons e es ih =>
+    simp only [runCore, runCoreKeep]
+    cases h : stepCore skip s e with
+    | error x => rfl
+    | ok s' => simpa [bind, Except.bind] using ih s'
+
+theorem deepenKeep_spec (g : Glyph R) :
+    deepen g =
+      match deepenKeep g with
+      | (g', none) => .ok g'
+      | (_, some e) => .error e := by
+  unfold deepen deepenKeep
+  cases hs : g.shallow with
+  | none => rfl
+  | some raws =>
+    simp only [runCoreKeep_spec false (drawRaw raws)]
+    rcases h : runCoreKeep false (drawRaw raws) ⟨{ g with shallow := none }, none⟩ with ⟨s', _ | e⟩ <;>
+      simp [bind, Except.bind]
+
+theorem stepKeep_spec (skip : Bool) (s : PenSt R) (e : Ev R) :
+    step skip s e =
+      match stepKeep skip s e with
+      | (s', none) => .ok s'
+      | (_, some x) => .error x := by
+  cases e with
+  | endPath =>
+    simp only [step, stepKeep]
+    cases hc : s.cur with
+    | none => rfl
+    | some c =>
+      simp only [deepenKeep_spec s.g]
+      rcases h : deepenKeep s.g with ⟨g', _ | x⟩ <;> simp [bind, Except.bind]
+  | beginPath i =>
+    simp only [step, stepKeep]
+    cases h : stepCore skip s (.beginPath i) <;> rfl
+  | addPoint p =>
+    simp only [step, stepKeep]
+    cases h : stepCore skip s (.addPoint p) <;> rfl
+  | addComponent k =>
+    simp only [step, stepKeep]
+    cases h : stepCore skip s (.addComponent k) <;> rfl
+
+theorem runKeep_spec (skip : Bool) (evs : List (Ev R)) (s : PenSt R) :
+    run skip evs s =
+      match runKeep skip evs s with
+      | (s', none) => .ok s'
+      | (_, some e) => .error e := by
+  induction evs generalizing s with
+  | nil => rfl
+  | cons e es ih =>
+    simp only [run, runKeep, stepKeep_spec skip s e]
+    rcases h : stepKeep skip s e with ⟨s', _ | x⟩
+    · simpa [bind, Except.bind] using ih s'
+    · rfl
+
+/-! ### reachable states never hold shallow contours and contour objects at once -/
+
+theorem stepCore_contours {skip : Bool} {s s' : PenSt R} {e : Ev R} (h : stepCore skip s e = .ok s')
+    (he : e ≠ .endPath) : s'.g.contours = s.g.contours := by
+  cases e with
+  | endPath => exact absurd rfl he
+  | beginPath i =>
+    simp only [stepCore, penBeginPath, bind, Except.bind] at h
+    cases hc : claim s.g.ids (effIdent skip s.g.ids i) with
+    | error x => simp [hc] at h
+    | ok ids => simp [hc] at h; rw [← h]
+  | addPoint p =>
+    simp only [stepCore, penAddPoint] at h
+    cases hcur : s.cur with
+    | none => simp [hcur] at h
+    | some c =>
+      simp only [hcur, bind, Except.bind] at h
+      cases hc : claim s.g.ids (effIdent skip s.g.ids p.ident) with
+      | error x => simp [hc] at h
+      | ok ids => simp [hc] at h; rw [← h]
+  | addComponent k =>
+    simp only [stepCore, penAddComponent, bind, Except.bind] at h
+    cases hc : claim s.g.ids (effIdent skip s.g.ids k.ident) with
+    | error x => simp [hc] at h
+    | ok ids => simp [hc] at h; rw [← h]
+
+theorem runCore_shallow {skip : Bool} {evs : List (Ev R)} {s s' : PenSt R} (h : runCore skip evs s = .ok s') :
+    s'.g.shallow = s.g.shallow := by
+  induction evs generalizing s with
+  | nil => simp [runCore] at h; rw [← h]
+  | cons e es ih =>
+    simp only [runCore, bind, Except.bind] at h
+    cases hs : stepCore skip s e with
+    | error x => simp [hs] at h
+    | ok s1 => simp only [hs] at h; rw [ih h, stepCore_shallow hs]
+
+theorem deepen_shallow_none {g g' : Glyph R} (h : deepen g = .ok g') : g'.shallow = none := by
+  unfold deepen at h
+  cases hs : g.shallow with
+  | none => simp [hs] at h; rw [← h]; exact hs
+  | some raws =>
+    simp only [hs, bind, Except.bind] at h
+    cases hr : runCore false (drawRaw raws) ⟨{ g with shallow := none }, none⟩ with
+    | error x => simp [hr] at h
+    | ok s' =>
+      simp [hr] at h
+      rw [← h, runCore_shallow hr]
+
+theorem step_shallowInv {skip : Bool} {s s' : PenSt R} {e : Ev R} (h : step skip s e = .ok s')
+    (hinv : s.g.ShallowInv) : s'.g.ShallowInv := by
+  by_cases he : e = .endPath
+  · subst he
+    simp only [step] at h
+    cases hc : s.cur with
+    | none => simp [hc] at h
+    | some c =>
+      simp only [hc, bind, Except.bind] at h
+      cases hd : deepen s.g with
+      | error x => simp [hd] at h
+      | ok g =>
+        simp [hd] at h
+        intro hne
+        rw [← h] at hne
+        exact absurd (deepen_shallow_none hd) hne
+  · have hsc : step skip s e = stepCore skip s e := by cases e <;> first | rfl | exact absurd rfl he
+    rw [hsc] at h
+    intro hne
+    rw [stepCore_contours h he]
+    exact hinv (by rw [← stepCore_shallow h]; exact hne)
+
+theorem run_shallowInv {skip : Bool} {evs : List (Ev R)} {s s' : PenSt R} (h : run skip evs s = .ok s')
+    (hinv : s.g.ShallowInv) : s'.g.ShallowInv := by
+  induction evs generalizing s with
+  | nil => simp [run] at h; rw [← h]; exact hinv
+  | cons e es ih =>
+    simp only [run, bind, Except.bind] at h
+    cases hs : step skip s e with
+    | error x => simp [hs] at h
+    | ok s1 => simp only [hs] at h; exact ih h (step_shallowInv hs hinv)
+
+/-! ### segment round trip of a whole glyph -/
+
+section Seg
+variable [DecidableEq R]
+
+/-- the call list ends with `closePath` or `endPath` -/
+def endsClosed (evs : List (SegEv R)) : Prop :=
+  ∃ a e, evs = a ++ [e] ∧ (e = SegEv.closePath ∨ e = SegEv.endPath)
+
+theorem stpStep_close_state {st st' : StpSt R} {e : SegEv R} {o : List (Ev R)}
+    (he : e = SegEv.closePath ∨ e = SegEv.endPath) (h : stpStep st e = some (st', o)) : st' = none := by
+  rcases he with rfl | rfl
+  · simp only [stpStep] at h
+    split at h
+    · simp at h
+    · simp at h
+    · split at h
+      · split at h <;> (simp at h; exact h.1.symm)
+      · simp at h; exact h.1.symm
+  · simp only [stpStep] at h
+    split at h
+    · simp at h
+    · simp at h; exact h.1.symm
+
+theorem stpRun_append_closed (a b : List (SegEv R)) (st : StpSt R) (out : List (Ev R))
+    (hc : endsClosed a) (h : stpRun st a = some out) :
+    stpRun st (a ++ b) = (stpRun none b).map (out ++ ·) := by
+  obtain ⟨a', e, rfl, he⟩ := hc
+  induction a' generalizing st out with
+  | nil =>
+    simp only [List.nil_append, stpRun] at h ⊢
+    cases hs : stpStep st e with
+    | none => simp [hs] at h
+    | some r =>
+      obtain ⟨st', o⟩ := r
+      have := stpStep_close_state he hs
+      subst this
+      simp only [hs, Option.map_some, List.append_nil, Option.some.injEq] at h
+      subst h
+      simp [List.singleton_append, stpRun, hs]
+  | cons x xs ih =>
+    simp only [List.cons_append, stpRun] at h ⊢
+    cases hs : stpStep st x with
+    | none => simp [hs] at h
+    | some r =>
+      obtain ⟨st', o⟩ := r
+      simp only [hs] at h ⊢
+      cases hr : stpRun st' (xs ++ [e]) with
+      | none => simp [hr] at h
+      | some out' =>
+        simp only [hr, Option.map_some, Option.some.injEq] at h
+        subst h
+        rw [ih st' out' hr]
+        cases stpRun none b <;> simp [List.append_assoc]
+
+theorem flushContour_endsClosed {segs : List (Seg × List (Point R))} {evs : List (SegEv R)}
+    (h : flushContour segs = some evs) : endsClosed evs := by
+  unfold flushContour at h
+  split at h
+  · simp at h
+  · split at h
+    · simp only [Option.map_eq_some_iff] at h
+      obtain ⟨x, _, rfl⟩ := h
+      exact ⟨.moveTo _ :: x, .endPath, rfl, Or.inr rfl⟩
+    · simp at h
+  · split at h
+    · simp at h
+    · simp only [Option.map_eq_some_iff] at h
+      obtain ⟨x, _, rfl⟩ := h
+      exact ⟨.moveTo _ :: x, .closePath, rfl, Or.inl rfl⟩
+
+theorem segContour_endsClosed {pts : List (Point R)} {evs : List (SegEv R)} (h : segContour pts = some evs) :
+    evs = [] ∨ endsClosed evs := by
+  unfold segContour at h
+  split at h
+  · simp at h; exact Or.inl h
+  · exact Or.inr (flushContour_endsClosed h)
+  · split at h
+    · exact Or.inr (flushContour_endsClosed h)
+    · split at h
+      · simp at h
+        subst h
+        exact Or.inr ⟨[.qCurveTo _ none], .closePath, rfl, Or.inl rfl⟩
+      · exact Or.inr (flushContour_endsClosed h)
+
+/-- the contours of a list, each through both adaptor pens, concatenated -/
+theorem segAll_roundtrip (cs : List (List (Point R))) (tl : List (SegEv R)) (hf : ∀ c ∈ cs, SegFaithful c) :
+    ∃ evs, segAll cs = some evs ∧
+      stpRun none (evs ++ tl) =
+        (stpRun none tl).map
+          ((cs.map (fun c => (⟨none, (rotateToFirstOn c).map Point.strip⟩ : Contour R))).flatMap drawContour ++ ·) := by
+  induction cs with
+  | nil => exact ⟨[], rfl, by simp⟩
+  | cons c cs ih =>
+    obtain ⟨evs, h1, h2⟩ := ih (fun c' hc' => hf c' (List.mem_cons_of_mem _ hc'))
+    have hrt := segRoundTrip_faithful c (hf c (by simp))
+    unfold segRoundTrip at hrt
+    cases hc : segContour c with
+    | none => simp [hc] at hrt
+    | some a =>
+      simp only [hc, Option.bind_some] at hrt
+      refine ⟨a ++ evs, by simp [segAll, hc, h1], ?_⟩
+      rcases segContour_endsClosed hc with rfl | hcl
+      · simp [stpRun] at hrt
+        exact absurd hrt (by simp [drawContour])
+      · rw [List.append_assoc, stpRun_append_closed a (evs ++ tl) none _ hcl hrt, h2]
+        cases stpRun none tl <;> simp
+
+theorem stpRun_components (ks : List (Component R)) :
+    stpRun none (ks.map (fun c => SegEv.addComponent c.base c.t)) =
+      some (ks.flatMap (fun k => drawComponent { k with ident := none })) := by
+  induction ks with
+  | nil => rfl
+  | cons k ks ih => simp [stpRun, stpStep, ih, drawComponent]
+
+theorem contourPointLists_points (pts : List (Point R)) (acc : List (Point R)) (rest : List (Ev R)) :
+    contourPointLists (pts.map Ev.addPoint ++ rest) acc = contourPointLists rest (acc ++ pts) := by
+  induction pts generalizing acc with
+  | nil => simp
+  | cons p ps ih => simp [contourPointLists, ih, List.append_assoc]
+
+theorem contourPointLists_comps (ks : List (Component R)) (acc : List (Point R)) :
+    contourPointLists (ks.flatMap drawComponent) acc = [] := by
+  induction ks with
+  | nil => rfl
+  | cons k ks ih => simpa [drawComponent, contourPointLists] using ih
+
+theorem contourPointLists_outline (cs : List (Contour R)) (ks : List (Component R)) (acc : List (Point R)) :
+    contourPointLists (cs.flatMap drawContour ++ ks.flatMap drawComponent) acc = cs.map (·.points) := by
+  induction cs generalizing acc with
+  | nil => simpa using contourPointLists_comps ks acc
+  | cons c cs ih =>
+    simp only [List.flatMap_cons, drawContour, List.cons_append, List.append_assoc, contourPointLists,
+      List.map_cons]
+    rw [contourPointLists_points]
+    simp [contourPointLists, ih]
+
+/-- **Segment round trip of a whole glyph**, whatever state it is in. -/
+theorem glyph_segRoundTrip (g : Glyph R) (hf : ∀ c ∈ g.outline, SegFaithful c.points) :
+    g.drawSeg.bind (stpRun none) =
+      some ((g.outline.map (fun c => (⟨none, (rotateToFirstOn c.points).map Point.strip⟩ : Contour R))).flatMap drawContour ++
+            g.components.flatMap (fun k => drawComponent { k with ident := none })) := by
+  unfold Glyph.drawSeg
+  rw [draw_eq_outline, contourPointLists_outline]
+  obtain ⟨evs, h1, h2⟩ := segAll_roundtrip (g.outline.map (·.points))
+    (g.components.map (fun c => SegEv.addComponent c.base c.t))
+    (by intro c hc; simp only [List.mem_map] at hc; obtain ⟨c', hc', rfl⟩ := hc; exact hf c' hc')
+  simp only [h1, Option.map_some, Option.bind_some]
+  rw [h2, stpRun_components]
+  simp [List.map_map, Function.comp_def]
+
+end Seg
+
 end Pen
 end DefconModel
